@@ -18,7 +18,8 @@ Next ==
                      ELSE IF ~c.fmt_unchanged THEN "format_changed"
                      ELSE ""
           IN IF bad = "" THEN TRUE
-             ELSE PrintT(ToJson([reject |-> c.id, at |-> 1, clause |-> bad, expected |-> [out |-> want]]))
+             ELSE PrintT(ToJson([reject |-> c.id, at |-> 1, clause |-> bad,
+                                 expected |-> [out |-> want, fixed |-> Fixed(c.lib, c.fmt), col |-> Column(c.lib, c.fmt)]]))
        /\ tid' = tid + 1
     \/ /\ tid = N + 1
        /\ PrintT(ToJson([done |-> N]))
